@@ -47,6 +47,8 @@ def run(ctx):
         tot = sum(map(len, t))
         for L in {0, tot, rng.randint(0, tot), max(0, tot - 1)}:
             lines.append(line(t, L, rng.randrange(1 << 30)))
+    for _ in range(3):          # no sequence at all (k = 0): the front ends return the target unchanged
+        lines.append(line([], 0, rng.randrange(1 << 30)))
     for ln in lines:
         ctx.count_case(ln, nontrivial=len(ln.split()) > 5)
     scr = ctx.path("pm_scripts.txt")
